@@ -334,6 +334,7 @@ inline void runFault(Ctx& C) {
       C.maxMetrics["max_fault_positions_in_one_operation"] = std::max(C.maxMetrics["max_fault_positions_in_one_operation"], double(N));
       auto exec = [&](const std::vector<uint64_t>& at, uint64_t from) {
         plans++;
+        C.evaluations++;  // one execution of the real library per fault plan
         FaultOutcome F = runScenario(h, op, at, from);
         if (!F.delivered) { undelivered++; return; }
         C.nontrivial(fnv1a(key + planText(at, from)));
@@ -449,6 +450,7 @@ inline void faultInputs(Ctx& C, bool thorough) {
           uint64_t c;
           bool d;
           plans++;
+          C.evaluations++;
           std::string pr = once(at, from, c, d);
           if (d) C.nontrivial(fnv1a(C.curKey + tag + planText(at, from)));
           C.outcome(std::string(fmt ? "msgpack" : "json") + (d ? ":fault-delivered" : ":fault-not-reached"));
